@@ -545,70 +545,111 @@ func (self *Value) SetByPath(sub Node, path ...Path) (exist bool, err error) {
 	originLen := len(self.raw()) // root buf length
 	err = self.replace(v.Node, sub) // replace ErrorNode bytes by sub Node bytes
 	isPacked := path[l-1].t == PathIndex && sub.t.IsPacked()
-	self.updateByteLen(originLen, address, isPacked, path...)
+	self.updateByteLen(originLen, address, isPacked, exist, path...)
 	return
 }
 
 // update parent node bytes length
-func (self *Value) updateByteLen(originLen int, address []int, isPacked bool, path ...Path) {
+// replaced tells that the last path addressed an existing element whose bytes have been replaced
+// (then, if it is a map value, the length of its map entry has to follow)
+func (self *Value) updateByteLen(originLen int, address []int, isPacked bool, replaced bool, path ...Path) {
 	afterLen := self.l
 	diffLen := afterLen - originLen
 	previousType := proto.UNKNOWN
+
+	// adjust rewrites the length that follows the tag at addressPtr by diffLen;
+	// an emptied packed list is dropped with its tag, an emptied message stays as an empty message
+	adjust := func(addressPtr int, dropIfEmpty bool) {
+		newBytes := NewBytesFromPool()
+		defer FreeBytesToPool(newBytes)
+		// tag
+		buf := rt.BytesFrom(rt.AddPtr(self.v, uintptr(addressPtr)), self.l-addressPtr, self.l-addressPtr)
+		_, tagOffset := protowire.ConsumeVarint(buf)
+		// length
+		length, lenOffset := protowire.ConsumeVarint(buf[tagOffset:])
+		newLength := int(length) + diffLen
+		newBytes = protowire.AppendVarint(newBytes, uint64(newLength))
+		// length == 0 means had been deleted all the data in the field
+		if newLength == 0 && dropIfEmpty {
+			newBytes = newBytes[:0]
+		}
+
+		subLen := len(newBytes) - lenOffset
+
+		if subLen == 0 {
+			// no need to change length
+			copy(buf[tagOffset:tagOffset+lenOffset], newBytes)
+			return
+		}
+
+		// split length
+		srcHead := rt.AddPtr(self.v, uintptr(addressPtr+tagOffset))
+		if newLength == 0 && dropIfEmpty {
+			// delete tag
+			srcHead = rt.AddPtr(self.v, uintptr(addressPtr))
+			subLen -= tagOffset
+		}
+
+		srcTail := rt.AddPtr(self.v, uintptr(addressPtr+tagOffset+lenOffset))
+		l0 := int(uintptr(srcHead) - uintptr(self.v))
+		l1 := len(newBytes)
+		l2 := int(uintptr(self.v) + uintptr(self.l) - uintptr(srcTail))
+
+		// copy three slices into new buffer
+		newBuf := make([]byte, l0+l1+l2)
+		copy(newBuf[:l0], rt.BytesFrom(self.v, l0, l0))
+		copy(newBuf[l0:l0+l1], newBytes)
+		copy(newBuf[l0+l1:l0+l1+l2], rt.BytesFrom(srcTail, l2, l2))
+		self.v = rt.GetBytePtr(newBuf)
+		self.l = int(len(newBuf))
+		diffLen += subLen
+	}
+
+	// findPair returns the tag position of the map entry that contains position inner,
+	// walking the entries from the first one (its length is still the one before the edit)
+	findPair := func(mapStart int, inner int) int {
+		q := mapStart
+		for q >= 0 && q < self.l {
+			buf := rt.BytesFrom(rt.AddPtr(self.v, uintptr(q)), self.l-q, self.l-q)
+			_, n1 := protowire.ConsumeVarint(buf)
+			if n1 < 0 {
+				return -1
+			}
+			length, n2 := protowire.ConsumeVarint(buf[n1:])
+			if n2 < 0 {
+				return -1
+			}
+			body := q + n1 + n2
+			if inner >= body && inner < body+int(length) {
+				return q
+			}
+			if inner < body {
+				return -1
+			}
+			q = body + int(length)
+		}
+		return -1
+	}
 
 	for i := len(address) - 1; i >= 0; i-- {
 		// notice: when i == len(address) - 1, it do not change bytes length because it has been changed in replace function, just change previousType
 		pathType := path[i].t
 		addressPtr := address[i]
-		if previousType == proto.MESSAGE || (previousType == proto.LIST && isPacked) {
-			newBytes := NewBytesFromPool()
-			// tag
-			buf := rt.BytesFrom(rt.AddPtr(self.v, uintptr(addressPtr)), self.l-addressPtr, self.l-addressPtr)
-			_, tagOffset := protowire.ConsumeVarint(buf)
-			// length
-			length, lenOffset := protowire.ConsumeVarint(buf[tagOffset:])
-			newLength := int(length) + diffLen
-			newBytes = protowire.AppendVarint(newBytes, uint64(newLength))
-			// length == 0 means had been deleted all the data in the field
-			if newLength == 0 {
-				newBytes = newBytes[:0]
-			}
-
-			subLen := len(newBytes) - lenOffset
-
-			if subLen == 0 {
-				// no need to change length
-				copy(buf[tagOffset:tagOffset+lenOffset], newBytes)
-				continue
-			}
-
-			// split length
-			srcHead := rt.AddPtr(self.v, uintptr(addressPtr+tagOffset))
-			if newLength == 0 {
-				// delete tag
-				srcHead = rt.AddPtr(self.v, uintptr(addressPtr))
-				subLen -= tagOffset
-			}
-
-			srcTail := rt.AddPtr(self.v, uintptr(addressPtr+tagOffset+lenOffset))
-			l0 := int(uintptr(srcHead) - uintptr(self.v))
-			l1 := len(newBytes)
-			l2 := int(uintptr(self.v) + uintptr(self.l) - uintptr(srcTail))
-
-			// copy three slices into new buffer
-			newBuf := make([]byte, l0+l1+l2)
-			copy(newBuf[:l0], rt.BytesFrom(self.v, l0, l0))
-			copy(newBuf[l0:l0+l1], newBytes)
-			copy(newBuf[l0+l1:l0+l1+l2], rt.BytesFrom(srcTail, l2, l2))
-			self.v = rt.GetBytePtr(newBuf)
-			self.l = int(len(newBuf))
-			if isPacked {
-				isPacked = false
-			}
-			diffLen += subLen
-			FreeBytesToPool(newBytes)
+		if previousType == proto.MESSAGE {
+			adjust(addressPtr, false)
+		} else if previousType == proto.LIST && isPacked {
+			adjust(addressPtr, true)
+			// only the innermost list is the packed one whose element has been changed
+			isPacked = false
 		}
 
 		if pathType == PathStrKey || pathType == PathIntKey {
+			// the map entry around the (changed) value has a length of its own
+			if i > 0 && diffLen != 0 && (i < len(address)-1 || replaced) {
+				if q := findPair(address[i-1], addressPtr); q >= 0 {
+					adjust(q, false)
+				}
+			}
 			previousType = proto.MAP
 		} else if pathType == PathIndex {
 			previousType = proto.LIST
@@ -664,7 +705,7 @@ func (self *Value) UnsetByPath(path ...Path) error {
 		return errValue(meta.ErrWrite, "replace node by empty node failed", err)
 	}
 	address = append(address, position) // must add one address align with path length
-	self.updateByteLen(originLen, address, isPacked, path...)
+	self.updateByteLen(originLen, address, isPacked, false, path...)
 	return nil
 }
 
@@ -1129,7 +1170,7 @@ func (self *Value) SetMany(pathes []PathNode, opts *Options, root *Value, addres
 		if self.t == proto.LIST && isPacked {
 			currentAdd := []int{0, -1}
 			currentPath := []Path{NewPathIndex(-1), NewPathIndex(-1)}
-			self.updateByteLen(originLen, currentAdd, isPacked, currentPath...)
+			self.updateByteLen(originLen, currentAdd, isPacked, false, currentPath...)
 		} else if self.t == proto.MESSAGE {
 			buf := self.raw()
 			_, lenOffset := protowire.ConsumeVarint(buf)
@@ -1148,7 +1189,7 @@ func (self *Value) SetMany(pathes []PathNode, opts *Options, root *Value, addres
 
 	// update root length
 	err = root.replaceMany(ps)
-	root.updateByteLen(rootLen, address, isPacked, path...)
+	root.updateByteLen(rootLen, address, isPacked, false, path...)
 ret:
 	ps.b = nil
 	pnsPool.Put(ps)
